@@ -4,6 +4,9 @@ import AdaptiveModel.Seq
 import AdaptiveModel.Avg
 import AdaptiveModel.DataSaver
 import AdaptiveModel.SeqLearner
+import AdaptiveModel.LND
+import AdaptiveModel.Integ
+import AdaptiveProofs.Props.C16Full
 
 /-!
 # C09 — asking without committing leaves a learner unchanged; committing is the same ask
@@ -13,7 +16,10 @@ the state returned by `ask n false` IS the state it was given (so data, pending 
 every later answer coincide trivially), and `ask n true` returns the same points/improvements and its
 state is `tell_pending` folded over them.  For the wrappers the statement is generic over the wrapped
 learner.  LearnerND and IntegratorLearner roll back with `utils.restore` (a snapshot of the attribute
-dictionary); they have no Lean model here and are covered by the twin oracle of `harness/props/c09.py`.
+dictionary): their models (`LND.lean`, `Integ.lean`, tied to the code by the lock-step checks C04 / C07) return the
+state they were given, also when the request fails; the committing half ("equivalent to marking each returned point
+pending") is not proved for these two and is covered by the twin oracle of `harness/props/c09.py`.  Learner2D has
+no Lean model.
 -/
 set_option linter.unusedSectionVars false
 namespace C09
@@ -92,5 +98,79 @@ theorem balancing_ask_nocommit_noop {L : Type} [LinearOrder L] (C : Balancing.Ch
     (Balancing.ask C s n false).2 = s ∧ (Balancing.ask C s n false).1 = (Balancing.ask C s n true).1 :=
   ⟨Balancing.ask_nocommit_noop hL s n, Balancing.ask_nocommit_points C s n⟩
 end wrappers
+
+/-! ### LearnerND (model of C04; every geometric answer is an oracle `env`) -/
+section lnd
+variable {α : Type} [Sub α] [Mul α] [Div α] [LT α] [DecidableLT α]
+
+/-- a non-committing ask that succeeds returns the state it was given and the points of the committing ask;
+one that fails (e.g. `ValueError` from the triangulation) fails in both modes -/
+theorem lnd_ask_nocommit_noop (env : LND.Env α) (s : LND.State α) (n : Nat) :
+    (∀ rs s', LND.ask env s n false = .ok (rs, s') → s' = s ∧ ∃ s'', LND.ask env s n true = .ok (rs, s'')) ∧
+    (∀ e, LND.ask env s n false = .error e ↔ LND.ask env s n true = .error e) := by
+  unfold LND.ask
+  cases LND.askLoop env n s with
+  | error e => exact ⟨fun _ _ h' => (by cases h'), fun e' => Iff.rfl⟩
+  | ok r =>
+    obtain ⟨rs, s1⟩ := r
+    refine ⟨fun rs' s' h' => ?_, fun e' => ⟨fun h' => (by cases h'), fun h' => (by cases h')⟩⟩
+    simp only [Bool.false_eq_true, if_false, Except.ok.injEq, Prod.mk.injEq] at h'
+    obtain ⟨rfl, rfl⟩ := h'
+    exact ⟨rfl, s1, rfl⟩
+
+/-- every later history behaves as if the non-committing ask had not happened -/
+theorem lnd_later_unchanged (env : LND.Env α) (s s' : LND.State α) (n : Nat) (ops : List (LND.Op α))
+    (h : LND.step env s (.ask n false) = .ok s') : LND.run env s' ops = LND.run env s ops := by
+  have h2 : (LND.ask env s n false).map (·.2) = .ok s' := h
+  cases h1 : LND.ask env s n false with
+  | error e => rw [h1] at h2; cases h2
+  | ok r =>
+    obtain ⟨rs, s1⟩ := r
+    rw [h1] at h2
+    have e1 : s1 = s' := by cases h2; rfl
+    obtain ⟨e2, -⟩ := (lnd_ask_nocommit_noop env s n).1 rs s1 h1
+    rw [← e1, e2]
+
+/-- repeating the call gives the same answer -/
+theorem lnd_ask_repeat (env : LND.Env α) (s s' : LND.State α) (n : Nat) (rs : List (LND.Pt × α))
+    (h : LND.ask env s n false = .ok (rs, s')) : LND.ask env s' n false = .ok (rs, s') := by
+  obtain ⟨rfl, -⟩ := (lnd_ask_nocommit_noop env s n).1 rs s' h
+  exact h
+end lnd
+
+/-! ### IntegratorLearner (model of C07; abscissae and numeric outcomes are oracles) -/
+section integ
+variable {α : Type} [OfNat α 0] [DecidableEq α] [Div α] [OfNat α 2] [LT α] [DecidableLT α] [Sub α] [Mul α]
+  [Add α] [Neg α]
+
+/-- the non-committing ask returns the state it was given - also when it raises (`restore` is a
+`try/finally`) - together with the points, improvements and error class of the committing ask -/
+theorem integ_ask_nocommit_noop (O : Integ.Oracle α) (P : Integ.Params α) (fuel : Nat) (s : Integ.St α)
+    (n : Nat) :
+    (Integ.ask O P fuel s n false).1 = s ∧
+    (Integ.ask O P fuel s n false).2 = (Integ.ask O P fuel s n true).2 := by
+  unfold Integ.ask
+  rcases Integ.askCommit O P fuel s n with ⟨s', _ | e, pts, imps⟩ <;> exact ⟨rfl, rfl⟩
+
+theorem integ_ask_repeat (O : Integ.Oracle α) (P : Integ.Params α) (fuel : Nat) (s : Integ.St α) (n : Nat) :
+    Integ.ask O P fuel (Integ.ask O P fuel s n false).1 n false = Integ.ask O P fuel s n false := by
+  rw [(integ_ask_nocommit_noop O P fuel s n).1]
+end integ
+
+/-! ### AverageLearner1D (the complete model of C16) -/
+section avg1dfull
+open Avg1DFull
+open L1D (Loss)
+variable {α : Type} [Field α] [LinearOrder α] [IsStrictOrderedRing α]
+variable (lossFn : List (Option α) → List (Option (List α)) → Loss α) (r12 sqrt : α → α)
+
+/-- for every admissible resolution `r` of the set-iteration choice: `ask(n, False)` returns the state it was
+given, `ask(n)` returns the same request and marks exactly it pending, in order -/
+theorem avg1d_ask_nocommit_noop (s : State α) (n : Nat) (c : α) :
+    ask lossFn r12 sqrt s n c false = (askPts r12 sqrt s n c).map (fun r => (r, s)) ∧
+    ask lossFn r12 sqrt s n c true = (askPts r12 sqrt s n c).map
+      (fun r => (r, r.1.foldl (fun s p => tellPending lossFn r12 s p.1 p.2) s)) :=
+  Avg1DFull.ask_commit lossFn r12 sqrt s n c
+end avg1dfull
 
 end C09
